@@ -1,7 +1,8 @@
 prop("C03", pkg="c03", fuzz=[("FuzzProtoRoundTrip", 60)],
      rule="rapid draws a message type from the shared generator pgen (reflect-composed structs of 0..30 fields: all scalar kinds, string, []byte, [N]byte, "
           "nested / pointer-to structs and scalars, **T, []T, map[K]V, untagged or fully tagged with numbers 1..2^29-1 weighted on 15/16, 2047/2048, 65535/65536 and "
-          "varint/zigzag32/64/fixed32/64/bytes/rep tags, single-pointer 'inlined' chains to depth 3, top-level scalars, "
+          "varint/zigzag32/64/fixed32/64/bytes/rep tags, single-pointer 'inlined' chains to depth 3, message structs larger than 64 KiB (2 % of types: a [65536|70000|131072]byte array as first field or in the "
+          "middle - zero-valued in 6 of 7 values, else all 0xFF - followed by fields of every kind, whose offsets lie beyond 65535), top-level scalars, "
           "chains of 1..3 pointers to implementers / corpus structs / structs / scalars both as the top-level value (7 % of types) and as fields, repeated elements and map values; plus a static corpus: RawMessage, a Message "
           "implementer, two gogo-style custom types, a struct implementing proto.Message that also carries the ProtoMessage() marker (MsgPM, encoded by its own methods) and one "
           "with the custom methods plus the marker (CustomSPM, which the library encodes as an ordinary struct by reflection), a slice-kinded custom type whose MarshalTo copies without checking for room (CustomCopy) and a Message "
